@@ -704,12 +704,20 @@ func c16Chains(e *Env) {
 			}
 		}
 	}
+	// long names and display symbols
+	for _, n := range []int{63, 64, 65, 255, 256, 1000} {
+		a := dict.ChordDef{Name: "N" + strings.Repeat("a", n-1), Extends: "m7", Attributes: []string{"Major9"}}
+		a.Meta.Display = "x" + strings.Repeat("y", n-1)
+		b := dict.ChordDef{Name: "M" + strings.Repeat("a", n-1), Extends: a.Meta.Display, Attributes: []string{"Perfect11"}}
+		b.Meta.Display = "z" + strings.Repeat("y", n-1)
+		cfgs = append(cfgs, c16Config{Chords: []dict.ChordDef{a, b}, Path: "lib"})
+	}
 	var cliN int64
 	mc.ParFor(len(cfgs), func(i int) {
 		c := cfgs[i]
 		c16UserEval(e, &c)
 		e.R.NonTrivialN(1)
-		if n := len(c.Chords); n == 1 || n >= 7 && n <= 10 || n == 12 || e.Thorough {
+		if n := len(c.Chords); n == 1 || len(c.Chords[0].Name) > 60 || n >= 7 && n <= 10 || n == 12 || e.Thorough {
 			cc := cfgs[i]
 			cc.Path = "cli"
 			c16UserEval(e, &cc)
@@ -723,7 +731,7 @@ func c16Chains(e *Env) {
 			}
 		}
 	})
-	e.R.AddPart(ev.Part{Name: "extends-chains", Enumerated: fmt.Sprintf("chains of k = 1..%d user chords, each adding one attribute and extending the previous one (by name and by display alternately), on top of {nothing, MajorTriad, maj9, m7, mM9, dim7} (built-in depth 0..4) x declaration order {parent first, child first, even links then odd links}: every link looked up by name and by display and compared with the reference resolution; in-process all %d, real binary %d (k = 1, 7..10, 12; one file per chord for k = 9)", maxK, len(cfgs), cliN), Executions: int64(len(cfgs)) + cliN, Exhaustive: true})
+	e.R.AddPart(ev.Part{Name: "extends-chains", Enumerated: fmt.Sprintf("chains of k = 1..%d user chords, each adding one attribute and extending the previous one (by name and by display alternately), on top of {nothing, MajorTriad, maj9, m7, mM9, dim7} (built-in depth 0..4) x declaration order {parent first, child first, even links then odd links}: every link looked up by name and by display and compared with the reference resolution; plus names and display symbols of 63..1000 characters; in-process all %d, real binary %d (k = 1, 7..10, 12; one file per chord for k = 9)", maxK, len(cfgs), cliN), Executions: int64(len(cfgs)) + cliN, Exhaustive: true})
 }
 
 // c16Overrides: user files that redefine built-in entries. Whichever definition wins, these
